@@ -319,10 +319,10 @@ def formtran0 (mk : Masks) (tbl : List Row) (phg pha gm : Option (M α)) (req : 
   let (pvdof, dof) ← liftE (mkdofpv mk.p tbl (.mask mk.g) req true)
   if gset then do
     let ng ← setPos tbl mk.p mk.g
-    let n := pvdof.length
-    let eye := (List.range n).map fun k => unitRow (α := α) n k
-    let rows ← scatterRows ng.length pvdof eye
-    .ok (⟨rows, ng.length⟩, dof)
+    -- `tran[np.arange(len(pvdof)), pvdof] = 1.0` (since fix 061ccd9; before it `tran[:, pvdof] = np.eye(n)`, where
+    -- the later column assignment won and the first of two rows of a DOF requested twice stayed zero: F68)
+    if pvdof.any (fun c => decide (ng.length ≤ c)) then .error (.base .index)
+    else .ok (⟨pvdof.map fun c => unitRow (α := α) ng.length c, ng.length⟩, dof)
   else match phg with
   | some ph => do
       let r ← rowsAt ph pvdof
